@@ -50,6 +50,12 @@ class _Canon(ast.NodeTransformer):
 
     def visit_Assign(self, node):
         self.generic_visit(node)
+        # `t = A if c else B`  ->  if c: t = A / else: t = B     (single plain target; the value is evaluated before the target)
+        if len(node.targets) == 1 and isinstance(node.value, ast.IfExp) and isinstance(node.targets[0], (ast.Name, ast.Attribute)) \
+                and (isinstance(node.targets[0], ast.Name) or isinstance(node.targets[0].value, ast.Name)):
+            e = node.value
+            mk = lambda x: ast.copy_location(ast.Assign(targets=[copy.deepcopy(node.targets[0])], value=x), node)
+            return ast.copy_location(ast.If(test=e.test, body=[mk(e.body)], orelse=[mk(e.orelse)]), node)
         if len(node.targets) == 1 and isinstance(node.targets[0], ast.Name) and isinstance(node.value, ast.BinOp) \
                 and isinstance(node.value.left, ast.Name) and node.value.left.id == node.targets[0].id:
             return ast.copy_location(ast.AugAssign(target=ast.Name(id=node.targets[0].id, ctx=ast.Store()),
